@@ -634,24 +634,27 @@ package main
 //@   note abstract view of the immutable operator table binOpMap (content checked by the binOpMap scan)
 
 //@ func parseTerm
-//@   props C08 C06
+//@   props C08 C06 C16
 //@   param pExpr: like parseExprWithPrec(_, #1, $0)
 //@   param pBlock: like parseBlock(_, $0)
 //@   modifies maps glob:wg glob:vardefs
 //@   requires live: live(ps)
 //@   requires offside-stack-non-empty: len(ps.offsideCol) >= 1
+//@   rec-group expr
+//@   decreases lex(rem(ps), 18)
 //@   panics may
 //@   ensures grouped: old(glob(wg)) ==> glob(wg)
 //@   ensures live: live(result.E0) && samebuf(result.E0, ps)
 //@   ensures kept: result.E0.scope == ps.scope && sameoff(result.E0.offsideCol, ps.offsideCol)
 //@   note one operand (atom, application, parenthesised expression, not, match, if, fun, slice): rank 100.  It builds no binary node itself (scan: newBinOpCall is called only from parseBinAfter); sub-expressions go through pExpr / pBlock, i.e. through the contracts of parseExprWithPrec / parseBlock
+//@   ensures progress: result.E0.tkz.current.begin > ps.tkz.current.begin
 
 //@ func psTypeVarGen
 //@   trusted
 //@   panics never
 
 //@ func parseBinAfter
-//@   props C08 C06
+//@   props C08 C06 C16
 //@   modifies maps glob:wg glob:vardefs
 //@   requires live: live(ps)
 //@   requires offside-stack-non-empty: len(ps.offsideCol) >= 1
@@ -662,6 +665,8 @@ package main
 //@   param pEwithMinPrec: like parseExprWithPrec(_, $0, $1)
 //@   requires next-fits: nextfits(ps, rpc)
 //@   requires min-small: minPrec <= 100
+//@   rec-group expr
+//@   decreases lex(rem(ps), 16)
 //@   panics may
 //@   ensures rank: rp >= minPrec || rp >= rpc
 //@   ensures C08 C06 no-operator-nothing-consumed: !isbinop(skipeol(ps).tkz.current.ttype) || binfo(skipeol(ps).tkz.current.ttype).Precedence < minPrec ==> result.E0 == ps && result.E1 == cur
@@ -674,9 +679,10 @@ package main
 //@   at before call newBinOpCall#0: glob(wg) = glob(wg) && rpc >= $2.Precedence && rrhs > $2.Precedence
 //@   at before call parseBinAfter#0: pass rpc = bop.Precedence
 //@   at after call parseBinAfter#0: rp = c_rp
+//@   ensures mono: result.E0.tkz.current.begin >= ps.tkz.current.begin
 
 //@ func parseExprWithPrec
-//@   props C08 C06
+//@   props C08 C06 C16
 //@   param pBlock: like parseBlock(_, $0)
 //@   modifies maps glob:wg glob:vardefs
 //@   requires live: live(ps)
@@ -688,6 +694,8 @@ package main
 //@   ensures C08 C06 line-breaks-after-an-expression-are-not-consumed: !isbinop(skipeol(T2).tkz.current.ttype) ==> result.E0 == T2
 //@   at after call frt.Destr2#0: T2 = ret
 //@   requires min-small: minPrec <= 100
+//@   rec-group expr
+//@   decreases lex(rem(ps), 19)
 //@   panics may
 //@   ensures rank: rp >= minPrec
 //@   ensures stop: stop(result.E0, minPrec)
@@ -695,18 +703,22 @@ package main
 //@   at before call parseBinAfter#0: pass rpc = 100
 //@   at after call parseBinAfter#0: rp = c_rp
 //@   at before call frt.NewTuple2#0: rp = 100
+//@   ensures progress: result.E0.tkz.current.begin > ps.tkz.current.begin
 
 //@ func parseExpr
-//@   props C08 C06
+//@   props C08 C06 C16
 //@   param pBlock: like parseBlock(_, $0)
 //@   modifies maps glob:wg glob:vardefs
 //@   requires live: live(ps)
 //@   requires offside-stack-non-empty: len(ps.offsideCol) >= 1
 //@   ensures live: live(result.E0) && samebuf(result.E0, ps)
 //@   ensures kept: result.E0.scope == ps.scope && sameoff(result.E0.offsideCol, ps.offsideCol)
+//@   rec-group expr
+//@   decreases lex(rem(ps), 20)
 //@   panics may
 //@   ensures grouped: old(glob(wg)) ==> glob(wg)
 //@   ensures stop: stop(result.E0, 1)
+//@   ensures progress: result.E0.tkz.current.begin > ps.tkz.current.begin
 
 // ---------------------------------------------------------------------------------------------
 // C05: every consumer of a dictionary enumeration (dict.Keys / Values / KVs expose Go's map order) has
@@ -1176,7 +1188,7 @@ package main
 
 
 //@ func parseURules
-//@   props C09
+//@   props C09 C16
 //@   param pBlock: like parseBlock(_, $0)
 //@   modifies maps glob:wg glob:vardefs
 //@   ghost P ParseState          -- the state after the union arms
@@ -1184,6 +1196,8 @@ package main
 //@   ghost TT FType              -- the type of the matched expression
 //@   requires live: live(ps)
 //@   requires offside-stack-non-empty: len(ps.offsideCol) >= 1
+//@   rec-group expr
+//@   decreases lex(rem(ps), 15)
 //@   panics may
 //@   ensures default-only-inside-offside: is(UnionMatchRules_UCaseWD, result.E1) ==> len(P.offsideCol) > 0 && P.tkz.col >= P.offsideCol[len(P.offsideCol) - 1] && is_default_mr(P)
 //@   ensures no-default-means-checked: is(UnionMatchRules_UCaseOnly, result.E1) && is(FType_FUnion, TT) ==> has_uniinfo(FType_FUnion_Value(TT)) && !(exists i int :: 0 <= i && i < len(uniinfo(FType_FUnion_Value(TT)).Cases) && (forall j int :: 0 <= j && j < len(US) ==> US[j].UnionPattern.CaseId != uniinfo(FType_FUnion_Value(TT)).Cases[i].Name))
@@ -1194,6 +1208,7 @@ package main
 //@   ensures grouped: old(glob(wg)) ==> glob(wg)
 //@   ensures kept: result.E0.scope == ps.scope && sameoff(result.E0.offsideCol, ps.offsideCol)
 //@   ensures live: live(result.E0) && samebuf(result.E0, ps)
+//@   ensures progress: result.E0.tkz.current.begin > ps.tkz.current.begin
 
 // C03: partial application - a closure over the missing parameters: supplied arguments first (in source
 // order), then _r0.._rk in order; closure parameters typed by the missing parameter types; the callee is
@@ -1609,23 +1624,28 @@ package main
 //@   ensures string: ps.tkz.current.ttype == New_TokenType_STRING && result.E0 == adv(ps) && result.E1 == ps.tkz.current.stringVal
 
 //@ func parseStringMatchRule
-//@   props C06
+//@   props C06 C16
 //@   param pBlock: like parseBlock(_, $0)
 //@   modifies maps glob:wg glob:vardefs
 //@   requires live: live(ps)
+//@   rec-group expr
+//@   decreases lex(rem(ps), 13)
 //@   panics may
 //@   ensures body-parsed-once: calls(pBlock) == old(calls(pBlock)) + 1
 //@   ensures body-starts-after-line-breaks: arg(pBlock, old(calls(pBlock))).tkz.current.ttype != New_TokenType_EOL
 //@   ensures grouped: old(glob(wg)) ==> glob(wg)
 //@   ensures kept: result.E0.scope == ps.scope && sameoff(result.E0.offsideCol, ps.offsideCol)
 //@   ensures live: live(result.E0) && samebuf(result.E0, ps)
+//@   ensures progress: result.E0.tkz.current.begin > ps.tkz.current.begin
 
 //@ func parseStringVarRule
-//@   props C06 C07
+//@   props C06 C07 C16
 //@   param pBlock: like parseBlock(_, $0)
 //@   modifies maps glob:vardefs glob:wg
 //@   ghost LB int                -- the definition log right before the body is parsed
 //@   requires live: live(ps)
+//@   rec-group expr
+//@   decreases lex(rem(ps), 13)
 //@   panics may
 //@   ensures C07 variable-in-a-child-scope: exists sc Scope :: {scparent(sc)} scparent(sc) == ps.scope && sc != ps.scope && LB == def_var(old(glob(vardefs)), sc, result.E1.VarName, mk_main_Var(result.E1.VarName, New_FType_FString)) && arg(pBlock, old(calls(pBlock))).scope == sc
 //@   ensures C07 scope-restored: result.E0.scope == ps.scope
@@ -1635,18 +1655,22 @@ package main
 //@   ensures kept: result.E0.scope == ps.scope && sameoff(result.E0.offsideCol, ps.offsideCol)
 //@   ensures live: live(result.E0) && samebuf(result.E0, ps)
 //@   at before call pBlock#0: LB = glob(vardefs)
+//@   ensures progress: result.E0.tkz.current.begin > ps.tkz.current.begin
 
 //@ func parseDefaultMatchRule
-//@   props C06 C09
+//@   props C06 C09 C16
 //@   param pBlock: like parseBlock(_, $0)
 //@   modifies maps glob:wg glob:vardefs
 //@   requires live: live(ps)
+//@   rec-group expr
+//@   decreases lex(rem(ps), 13)
 //@   panics may
 //@   ensures body-parsed-once: calls(pBlock) == old(calls(pBlock)) + 1
 //@   ensures body-starts-after-line-breaks: arg(pBlock, old(calls(pBlock))).tkz.current.ttype != New_TokenType_EOL
 //@   ensures grouped: old(glob(wg)) ==> glob(wg)
 //@   ensures kept: result.E0.scope == ps.scope && sameoff(result.E0.offsideCol, ps.offsideCol)
 //@   ensures live: live(result.E0) && samebuf(result.E0, ps)
+//@   ensures progress: result.E0.tkz.current.begin > ps.tkz.current.begin
 
 //@ func lookupCase
 //@   trusted
@@ -1654,7 +1678,7 @@ package main
 //@   note abstract: the case of a union by name, from the global union-info table
 
 //@ func parseUnionMatchRule
-//@   props C06 C09 C07
+//@   props C06 C09 C07 C16
 //@   param pBlock: like parseBlock(_, $0)
 //@   modifies maps glob:vardefs glob:wg
 //@   ghost LB int                -- the definition log right before the body is parsed
@@ -1663,6 +1687,8 @@ package main
 //@   ensures C07 payload-variable-only-in-the-child-scope: (result.E1.UnionPattern.VarName == "" || result.E1.UnionPattern.VarName == "_") ==> LB == old(glob(vardefs))
 //@   ensures C07 payload-variable-in-the-child-scope: result.E1.UnionPattern.VarName != "" && result.E1.UnionPattern.VarName != "_" ==> exists v Var :: {def_var(old(glob(vardefs)), arg(pBlock, old(calls(pBlock))).scope, result.E1.UnionPattern.VarName, v)} v.Name == result.E1.UnionPattern.VarName && LB == def_var(old(glob(vardefs)), arg(pBlock, old(calls(pBlock))).scope, result.E1.UnionPattern.VarName, v)
 //@   ensures C07 scope-restored: result.E0.scope == ps.scope
+//@   rec-group expr
+//@   decreases lex(rem(ps), 13)
 //@   panics may
 //@   ensures live: live(result.E0) && samebuf(result.E0, ps)
 //@   ensures offside-stack-kept: sameoff(result.E0.offsideCol, ps.offsideCol)
@@ -1671,6 +1697,7 @@ package main
 //@   ensures body-starts-after-line-breaks: arg(pBlock, old(calls(pBlock))).tkz.current.ttype != New_TokenType_EOL
 //@   ensures grouped: old(glob(wg)) ==> glob(wg)
 //@   at before call pBlock#0: LB = glob(vardefs)
+//@   ensures progress: result.E0.tkz.current.begin > ps.tkz.current.begin
 
 //@ func psNewTypeVar
 //@   trusted
@@ -1679,7 +1706,7 @@ package main
 
 // the parameters of a let / fun: `()` is no parameter; `(x: T)` and `x` define x in the current scope, in order
 //@ func parseParam
-//@   props C07 C03
+//@   props C07 C03 C16
 //@   modifies maps glob:vardefs
 //@   requires live: live(ps)
 //@   panics may
@@ -1689,7 +1716,7 @@ package main
 //@   ensures progress: result.E0.tkz.current.begin > ps.tkz.current.begin
 
 //@ func parseParams
-//@   props C07 C03
+//@   props C07 C03 C16
 //@   modifies maps glob:vardefs
 //@   requires live: live(ps)
 //@   panics may
@@ -1700,15 +1727,18 @@ package main
 //@   ensures progress: result.E0.tkz.current.begin > ps.tkz.current.begin
 
 //@ func parseBlock
-//@   props C06 C08 C09
+//@   props C06 C08 C09 C16
 //@   modifies maps glob:vardefs glob:wg
 //@   requires live: live(ps)
-//@   requires let-parser-keeps: forall p ParseState :: {pLet(p)} live(p) ==> live(pLet(p).E0) && samebuf(pLet(p).E0, p) && sameoff(pLet(p).E0.offsideCol, p.offsideCol) && pLet(p).E0.scope == p.scope
+//@   requires let-parser-keeps: forall p ParseState :: {pLet(p)} live(p) ==> live(pLet(p).E0) && samebuf(pLet(p).E0, p) && sameoff(pLet(p).E0.offsideCol, p.offsideCol) && pLet(p).E0.scope == p.scope && pLet(p).E0.tkz.current.begin >= p.tkz.current.begin && (p.tkz.current.ttype != New_TokenType_EOF ==> pLet(p).E0.tkz.current.begin > p.tkz.current.begin)
+//@   rec-group expr
+//@   decreases lex(rem(ps), 30)
 //@   panics may
 //@   ensures kept: live(result.E0) && samebuf(result.E0, ps) && result.E0.scope == ps.scope && sameoff(result.E0.offsideCol, ps.offsideCol)
 //@   ensures block-ends-left-of-its-column-or-at-the-end: result.E0.tkz.col < ps.tkz.col || result.E0.tkz.current.ttype == New_TokenType_EOF || result.E0.tkz.current.ttype == New_TokenType_RPAREN
 //@   ensures grouped: old(glob(wg)) ==> glob(wg)
 //@   note the statements go through the function-typed parameter pLet (a plain callback: its effects on the logs are not modelled) and through parseExpr (by contract)
+//@   ensures progress: result.E0.tkz.current.begin > ps.tkz.current.begin
 
 //@ func blockToExpr
 //@   trusted
@@ -1720,7 +1750,7 @@ package main
 //@   ghost P ParseState          -- the state at which the body block is parsed
 //@   ghost L int                 -- the definition log right after the parameters
 //@   requires live: live(ps)
-//@   requires let-parser-keeps: forall p ParseState :: {pLet(p)} live(p) ==> live(pLet(p).E0) && samebuf(pLet(p).E0, p) && sameoff(pLet(p).E0.offsideCol, p.offsideCol) && pLet(p).E0.scope == p.scope
+//@   requires let-parser-keeps: forall p ParseState :: {pLet(p)} live(p) ==> live(pLet(p).E0) && samebuf(pLet(p).E0, p) && sameoff(pLet(p).E0.offsideCol, p.offsideCol) && pLet(p).E0.scope == p.scope && pLet(p).E0.tkz.current.begin >= p.tkz.current.begin && (p.tkz.current.ttype != New_TokenType_EOF ==> pLet(p).E0.tkz.current.begin > p.tkz.current.begin)
 //@   panics may
 //@   ensures body-starts-after-line-breaks: P.tkz.current.ttype != New_TokenType_EOL
 //@   ensures C07 parameters-and-body-in-a-child-scope: scparent(P.scope) == ps.scope && P.scope != ps.scope && L == params_log(old(glob(vardefs)), P.scope, result.E1.Params)
@@ -1740,27 +1770,32 @@ package main
 
 // if ... then / else on several lines: every block body is parsed from a token that is not an end-of-line
 //@ func parseIfAfterIfExpr
-//@   props C06
+//@   props C06 C16
 //@   param pExpr: like parseExprWithPrec(_, #1, $0)
 //@   param pBlock: like parseBlock(_, $0)
 //@   modifies maps glob:wg glob:vardefs
 //@   requires live: live(ps)
 //@   requires offside-stack-non-empty: len(ps.offsideCol) >= 1
+//@   rec-group expr
+//@   decreases lex(rem(ps), 25)
 //@   panics may
 //@   ensures blocks-start-after-line-breaks: forall j int :: old(calls(pBlock)) <= j && j < calls(pBlock) ==> arg(pBlock, j).tkz.current.ttype != New_TokenType_EOL
 //@   ensures live: live(result.E0) && samebuf(result.E0, ps)
 //@   ensures grouped: old(glob(wg)) ==> glob(wg)
 //@   ensures kept: result.E0.scope == ps.scope && sameoff(result.E0.offsideCol, ps.offsideCol)
+//@   ensures progress: result.E0.tkz.current.begin > ps.tkz.current.begin
 
 // the arms of a union match: the list goes on exactly while the next token (after line breaks) is a `|` that
 // lies inside the enclosing offside line and does not start the default arm - tested on the state reached,
 // not on the state the match started in
 //@ func parseUnionMatchRules
-//@   props C06 C09
+//@   props C06 C09 C16
 //@   param pBlock: like parseBlock(_, $0)
 //@   modifies maps glob:vardefs glob:wg
 //@   requires live: live(ps)
 //@   requires offside-stack-non-empty: len(ps.offsideCol) >= 1
+//@   rec-group expr
+//@   decreases lex(rem(ps), 14)
 //@   panics may
 //@   ensures arms-end-at-the-offside-line: !(result.E0.tkz.col >= result.E0.offsideCol[len(result.E0.offsideCol) - 1] && result.E0.tkz.current.ttype == New_TokenType_BAR && !is_default_mr(result.E0))
 //@   ensures at-least-one-arm: len(result.E1) >= 1
@@ -1772,7 +1807,10 @@ package main
 //@     invariant live: live(ps) && samebuf(ps, old(ps))
 //@     invariant offside: sameoff(ps.offsideCol, old(ps).offsideCol) && ps.scope == old(ps).scope
 //@     invariant arms: len(res) >= 1
+//@     invariant advanced: ps.tkz.current.begin > old(ps).tkz.current.begin
+//@     decreases rem(ps)
 //@   ensures grouped: old(glob(wg)) ==> glob(wg)
+//@   ensures progress: result.E0.tkz.current.begin > ps.tkz.current.begin
 
 // ---------------------------------------------------------------------------------------------
 // C03, parser half of record definitions: the field list of the definition is exactly the fields written,
@@ -1895,11 +1933,13 @@ package main
 // ---------------------------------------------------------------------------------------------
 
 //@ func parseFunExpr
-//@   props C07
+//@   props C07 C16
 //@   param pBlock: like parseBlock(_, $0)
 //@   modifies maps glob:vardefs glob:wg
 //@   ghost LB int                -- the definition log right before the body is parsed
 //@   requires live: live(ps)
+//@   rec-group expr
+//@   decreases lex(rem(ps), 17)
 //@   panics may
 //@   ensures parameters-in-a-child-scope: exists sc Scope :: {scparent(sc)} scparent(sc) == ps.scope && sc != ps.scope && LB == params_log(old(glob(vardefs)), sc, Expr_ELambda_Value(result.E1).Params) && arg(pBlock, old(calls(pBlock))).scope == sc
 //@   ensures scope-restored: result.E0.scope == ps.scope
@@ -1907,6 +1947,7 @@ package main
 //@   ensures kept: result.E0.scope == ps.scope && sameoff(result.E0.offsideCol, ps.offsideCol)
 //@   ensures live: live(result.E0) && samebuf(result.E0, ps)
 //@   at before call pBlock#0: LB = glob(vardefs)
+//@   ensures progress: result.E0.tkz.current.begin > ps.tkz.current.begin
 
 // entering a type definition group resets the allocator of forward-declaration placeholders (and nothing
 // else: the per-let type-variable allocator of the inference context is not touched), starts with empty
@@ -1941,20 +1982,23 @@ package main
 // resolved BY NAME when any of its fields is qualified (the first qualifier written counts), and only
 // otherwise by its set of field names
 //@ func parseFiIni
-//@   props C05 C03
+//@   props C05 C03 C16
 //@   param parseE: like parseExprWithPrec(_, #1, $0)
 //@   modifies maps glob:wg glob:vardefs
 //@   requires live: live(ps)
 //@   requires offside-stack-non-empty: len(ps.offsideCol) >= 1
+//@   rec-group expr
+//@   decreases lex(rem(ps), 10)
 //@   panics may
 //@   ensures qualified: skipeol(adv(ps)).tkz.current.ttype == New_TokenType_DOT ==> result.E1.RecName == ps.tkz.current.stringVal && result.E1.NePair.Name == adv(skipeol(adv(ps))).tkz.current.stringVal
 //@   ensures unqualified: skipeol(adv(ps)).tkz.current.ttype != New_TokenType_DOT ==> result.E1.RecName == "" && result.E1.NePair.Name == ps.tkz.current.stringVal
 //@   ensures live: live(result.E0) && samebuf(result.E0, ps)
 //@   ensures kept: result.E0.scope == ps.scope && sameoff(result.E0.offsideCol, ps.offsideCol)
 //@   ensures grouped: old(glob(wg)) ==> glob(wg)
+//@   ensures progress: result.E0.tkz.current.begin > ps.tkz.current.begin
 
 //@ func parseFieldInitializers
-//@   props C05 C03
+//@   props C05 C03 C16
 //@   param parseE: like parseExprWithPrec(_, #1, $0)
 //@   modifies maps glob:wg glob:vardefs
 //@   ghost P2 ParseState         -- the state after the first initializer
@@ -1962,6 +2006,8 @@ package main
 //@   ghost TL fiListInfo         -- the initializers after it
 //@   requires live: live(ps)
 //@   requires offside-stack-non-empty: len(ps.offsideCol) >= 1
+//@   rec-group expr
+//@   decreases lex(rem(ps), 11)
 //@   panics may
 //@   ensures one: P2.tkz.current.ttype == New_TokenType_RBRACE ==> result.E1.RecName == FI.RecName && len(result.E1.NePairs) == 1 && result.E1.NePairs[0] == FI.NePair
 //@   ensures the-first-qualifier-written-names-the-record: P2.tkz.current.ttype != New_TokenType_RBRACE ==> result.E1.RecName == ite(FI.RecName != "", FI.RecName, TL.RecName)
@@ -1972,6 +2018,7 @@ package main
 //@   at after call frt.Destr2#0: P2 = ret0
 //@   at after call frt.Destr2#0: FI = ret1
 //@   at after call frt.Destr2#1: TL = ret1
+//@   ensures progress: result.E0.tkz.current.begin > ps.tkz.current.begin
 
 //@ func scLookupRecFac
 //@   trusted
@@ -1986,7 +2033,7 @@ package main
 //@   ensures state-kept: result.E0 == ps
 
 //@ func parseRecordGen
-//@   props C05 C03
+//@   props C05 C03 C16
 //@   param parseE: like parseExprWithPrec(_, #1, $0)
 //@   modifies maps glob:wg glob:vardefs
 //@   ghost FL fiListInfo         -- the initializer list parsed
@@ -1994,6 +2041,8 @@ package main
 //@   ghost NM string             -- the name looked up
 //@   requires live: live(ps)
 //@   requires offside-stack-non-empty: len(ps.offsideCol) >= 1
+//@   rec-group expr
+//@   decreases lex(rem(ps), 12)
 //@   panics may
 //@   ensures a-qualified-literal-is-resolved-by-name: (FL.RecName != "" ==> R == 1 && NM == FL.RecName) && (FL.RecName == "" ==> R == 2)
 //@   ensures live: live(result.E0) && samebuf(result.E0, ps)
@@ -2003,6 +2052,7 @@ package main
 //@   at before call scLookupRecFacByName#0: R = 1
 //@   at before call scLookupRecFacByName#0: NM = $1
 //@   at before call scLookupRecFac#0: R = 2
+//@   ensures progress: result.E0.tkz.current.begin > ps.tkz.current.begin
 
 //@ func parseSliceExpr
 //@   props C08 C16
@@ -2010,6 +2060,8 @@ package main
 //@   modifies maps glob:wg glob:vardefs
 //@   requires live: live(ps)
 //@   requires offside-stack-non-empty: len(ps.offsideCol) >= 1
+//@   rec-group expr
+//@   decreases lex(rem(ps), 12)
 //@   panics may
 //@   ensures live: live(result.E0) && samebuf(result.E0, ps)
 //@   ensures kept: result.E0.scope == ps.scope && sameoff(result.E0.offsideCol, ps.offsideCol)
@@ -2020,6 +2072,9 @@ package main
 //@     invariant kept: live(ps) && samebuf(ps, old(ps)) && ps.scope == old(ps).scope && sameoff(ps.offsideCol, old(ps).offsideCol)
 //@     invariant grouped: old(glob(wg)) ==> glob(wg)
 //@     invariant some: len(res) >= 1
+//@     invariant advanced: ps.tkz.current.begin > old(ps).tkz.current.begin
+//@     decreases rem(ps)
+//@   ensures progress: result.E0.tkz.current.begin > ps.tkz.current.begin
 
 //@ func parseUSPropAcc
 //@   props C08 C16
@@ -2069,23 +2124,26 @@ package main
 // a reference: `<` opens a type-argument list only when it follows the identifier without a blank; a spaced
 // `<` is left to the operator parser (the reference ends right after the identifier)
 //@ func parseVarRef
-//@   props C08
+//@   props C08 C16
 //@   modifies maps glob:wg glob:vardefs
 //@   requires live: live(ps)
 //@   panics may
 //@   ensures live: live(result.E0) && samebuf(result.E0, ps)
+//@   ensures progress: result.E0.tkz.current.begin > ps.tkz.current.begin
 //@   ensures spaced-lt-is-left-to-the-operator-parser: !(ps.tkz.current.begin + ps.tkz.current.len < len(ps.tkz.buf) && ps.tkz.buf[ps.tkz.current.begin + ps.tkz.current.len] == '<') && adv(ps).tkz.current.ttype != New_TokenType_DOT ==> result.E0 == adv(ps)
 //@   ensures kept: result.E0.scope == ps.scope && sameoff(result.E0.offsideCol, ps.offsideCol)
 //@   ensures grouped: old(glob(wg)) ==> glob(wg)
 
 //@ func parseAtom
-//@   props C08
+//@   props C08 C16
 //@   param parseE: like parseExprWithPrec(_, #1, $0)
 //@   modifies maps glob:wg glob:vardefs
 //@   ghost P2 ParseState         -- the state after the expression inside the parentheses
 //@   ghost E1G Expr              -- that expression
 //@   requires live: live(ps)
 //@   requires offside-stack-non-empty: len(ps.offsideCol) >= 1
+//@   rec-group expr
+//@   decreases lex(rem(ps), 13)
 //@   panics may
 //@   ensures string-literal: ps.tkz.current.ttype == New_TokenType_STRING ==> result.E0 == adv(ps) && result.E1 == Expr_EStringLiteral(ps.tkz.current.stringVal)
 //@   ensures int-literal: ps.tkz.current.ttype == New_TokenType_INT_IMM ==> result.E0 == adv(ps) && result.E1 == Expr_EIntImm(ps.tkz.current.intVal)
@@ -2101,6 +2159,9 @@ package main
 //@   loop ParseList2/0:
 //@     invariant kept: live(ps) && samebuf(ps, old(ps)) && ps.scope == old(ps).scope && sameoff(ps.offsideCol, old(ps).offsideCol)
 //@     invariant grouped: old(glob(wg)) ==> glob(wg)
+//@     invariant advanced: ps.tkz.current.begin > old(ps).tkz.current.begin
+//@     decreases rem(ps)
+//@   ensures progress: result.E0.tkz.current.begin > ps.tkz.current.begin
 
 // ---------------------------------------------------------------------------------------------
 // C16: the list-parsing loops terminate because each step consumes input.  Stated once, on the generic
@@ -2145,16 +2206,19 @@ package main
 //@   returns ps.tkz.current.ttype == New_TokenType_EOF || ps.tkz.current.ttype == New_TokenType_EOL || ps.tkz.current.ttype == New_TokenType_SEMICOLON || ps.tkz.current.ttype == New_TokenType_RBRACE || ps.tkz.current.ttype == New_TokenType_RPAREN || ps.tkz.current.ttype == New_TokenType_RSBRACKET || ps.tkz.current.ttype == New_TokenType_WITH || ps.tkz.current.ttype == New_TokenType_THEN || ps.tkz.current.ttype == New_TokenType_ELSE || ps.tkz.current.ttype == New_TokenType_COMMA || isbinop(skipeol(ps).tkz.current.ttype)
 
 //@ func parseAtomList
-//@   props C08
+//@   props C08 C16
 //@   param parseE: like parseExprWithPrec(_, #1, $0)
 //@   modifies maps glob:wg glob:vardefs
 //@   requires live: live(ps)
 //@   requires offside-stack-non-empty: len(ps.offsideCol) >= 1
+//@   rec-group expr
+//@   decreases lex(rem(ps), 14)
 //@   panics may
 //@   ensures at-least-one: len(result.E1) >= 1
 //@   ensures live: live(result.E0) && samebuf(result.E0, ps)
 //@   ensures grouped: old(glob(wg)) ==> glob(wg)
 //@   ensures kept: result.E0.scope == ps.scope && sameoff(result.E0.offsideCol, ps.offsideCol)
+//@   ensures progress: result.E0.tkz.current.begin > ps.tkz.current.begin
 
 // a match: a default arm alone is rejected; a target whose type is a union is parsed by the union rules
 // (and so goes through the exhaustiveness routing of parseURules), never by the string rules
@@ -2174,22 +2238,26 @@ package main
 //@   panics may
 //@   ensures kept: live(ps) ==> live(result.E0) && samebuf(result.E0, ps) && result.E0.scope == ps.scope && sameoff(result.E0.offsideCol, ps.offsideCol)
 //@   ensures grouped: old(glob(wg)) ==> glob(wg)
+//@   ensures progress: live(ps) ==> result.E0.tkz.current.begin > ps.tkz.current.begin
 
 //@ func parseMatchRules
-//@   props C09
+//@   props C09 C16
 //@   param pBlock: like parseBlock(_, $0)
 //@   modifies maps glob:vardefs glob:wg
 //@   requires live: live(ps)
 //@   requires offside-stack-non-empty: len(ps.offsideCol) >= 1
+//@   rec-group expr
+//@   decreases lex(rem(ps), 16)
 //@   panics may
 //@   ensures default-arm-alone-is-rejected: !(ps.tkz.current.ttype == New_TokenType_BAR && adv(ps).tkz.current.ttype == New_TokenType_UNDER_SCORE)
 //@   ensures union-target-is-parsed-by-the-union-rules: is(FType_FUnion, exprtype(target)) ==> is(MatchRules_RUnions, result.E1)
 //@   ensures grouped: old(glob(wg)) ==> glob(wg)
 //@   ensures kept: result.E0.scope == ps.scope && sameoff(result.E0.offsideCol, ps.offsideCol)
 //@   ensures live: live(result.E0) && samebuf(result.E0, ps)
+//@   ensures progress: result.E0.tkz.current.begin > ps.tkz.current.begin
 
 //@ func parseMatchExpr
-//@   props C06 C09
+//@   props C06 C09 C16
 //@   param pExpr: like parseExprWithPrec(_, #1, $0)
 //@   param pBlock: like parseBlock(_, $0)
 //@   modifies maps glob:vardefs glob:wg
@@ -2197,6 +2265,8 @@ package main
 //@   ghost TG Expr               -- the expression parsed after `match`
 //@   requires live: live(ps)
 //@   requires offside-stack-non-empty: len(ps.offsideCol) >= 1
+//@   rec-group expr
+//@   decreases lex(rem(ps), 17)
 //@   panics may
 //@   ensures rules-start-after-line-breaks: P.tkz.current.ttype != New_TokenType_EOL
 //@   ensures target-is-the-expression-after-match: result.E1.Target == TG && ps.tkz.current.ttype == New_TokenType_MATCH && arg(pExpr, old(calls(pExpr))) == adv(ps)
@@ -2206,6 +2276,7 @@ package main
 //@   ensures kept: result.E0.scope == ps.scope && sameoff(result.E0.offsideCol, ps.offsideCol)
 //@   ensures live: live(result.E0) && samebuf(result.E0, ps)
 //@   at after call frt.Destr2#0: TG = ret1
+//@   ensures progress: result.E0.tkz.current.begin > ps.tkz.current.begin
 
 // ---------------------------------------------------------------------------------------------
 // C03, package_info: a declaration `let name<T,..>: A->B->C` records under `name` the signature that was
@@ -2387,12 +2458,14 @@ package main
 // ---------------------------------------------------------------------------------------------
 
 //@ func parseStmtList
-//@   props C06
+//@   props C06 C16
 //@   param pExpr: like parseExpr(_, $0)
 //@   modifies maps glob:wg glob:vardefs
 //@   requires live: live(ps)
 //@   requires offside-stack-non-empty: len(ps.offsideCol) >= 1
-//@   requires let-parser-keeps: forall p ParseState :: {pLet(p)} live(p) ==> live(pLet(p).E0) && samebuf(pLet(p).E0, p) && sameoff(pLet(p).E0.offsideCol, p.offsideCol) && pLet(p).E0.scope == p.scope
+//@   requires let-parser-keeps: forall p ParseState :: {pLet(p)} live(p) ==> live(pLet(p).E0) && samebuf(pLet(p).E0, p) && sameoff(pLet(p).E0.offsideCol, p.offsideCol) && pLet(p).E0.scope == p.scope && pLet(p).E0.tkz.current.begin >= p.tkz.current.begin && (p.tkz.current.ttype != New_TokenType_EOF ==> pLet(p).E0.tkz.current.begin > p.tkz.current.begin)
+//@   rec-group expr
+//@   decreases lex(rem(ps), 28)
 //@   panics may
 //@   ensures block-ends-left-of-its-column-or-at-the-end: result.E0.tkz.col < result.E0.offsideCol[len(result.E0.offsideCol) - 1] || result.E0.tkz.current.ttype == New_TokenType_EOF || result.E0.tkz.current.ttype == New_TokenType_RPAREN
 //@   ensures at-least-one-statement: len(result.E1) >= 1
@@ -2404,14 +2477,19 @@ package main
 //@     invariant kept: live(ps) && samebuf(ps, old(ps)) && sameoff(ps.offsideCol, old(ps).offsideCol) && ps.scope == old(ps).scope
 //@     invariant some: len(res) >= 1
 //@     invariant not-eol: ps.tkz.current.ttype != New_TokenType_EOL
+//@     invariant advanced: ps.tkz.current.begin > old(ps).tkz.current.begin
+//@     decreases rem(ps)
 //@   ensures grouped: old(glob(wg)) ==> glob(wg)
+//@   ensures progress: result.E0.tkz.current.begin > ps.tkz.current.begin
 
 //@ func parseBlockAfterPushScope
-//@   props C06
+//@   props C06 C16
 //@   param pExpr: like parseExpr(_, $0)
 //@   modifies maps glob:wg glob:vardefs
 //@   requires live: live(ps)
-//@   requires let-parser-keeps: forall p ParseState :: {pLet(p)} live(p) ==> live(pLet(p).E0) && samebuf(pLet(p).E0, p) && sameoff(pLet(p).E0.offsideCol, p.offsideCol) && pLet(p).E0.scope == p.scope
+//@   requires let-parser-keeps: forall p ParseState :: {pLet(p)} live(p) ==> live(pLet(p).E0) && samebuf(pLet(p).E0, p) && sameoff(pLet(p).E0.offsideCol, p.offsideCol) && pLet(p).E0.scope == p.scope && pLet(p).E0.tkz.current.begin >= p.tkz.current.begin && (p.tkz.current.ttype != New_TokenType_EOF ==> pLet(p).E0.tkz.current.begin > p.tkz.current.begin)
+//@   rec-group expr
+//@   decreases lex(rem(ps), 29)
 //@   panics may
 //@   ensures block-column-right-of-the-offside-line: len(ps.offsideCol) >= 1 && ps.offsideCol[len(ps.offsideCol) - 1] < ps.tkz.col
 //@   ensures block-ends-left-of-its-column-or-at-the-end: result.E0.tkz.col < ps.tkz.col || result.E0.tkz.current.ttype == New_TokenType_EOF || result.E0.tkz.current.ttype == New_TokenType_RPAREN
@@ -2419,6 +2497,7 @@ package main
 //@   ensures scope-popped: result.E0.scope == scparent(ps.scope)
 //@   ensures live: live(result.E0) && samebuf(result.E0, ps)
 //@   ensures grouped: old(glob(wg)) ==> glob(wg)
+//@   ensures progress: result.E0.tkz.current.begin > ps.tkz.current.begin
 
 // ---------------------------------------------------------------------------------------------
 // C09, emission of a union match: `switch [tmp := ](target).(type){` + one `case U_C:` per arm in source
